@@ -12,6 +12,8 @@ import (
 	"runtime/debug"
 	"sort"
 	"strings"
+	"sync"
+	"time"
 )
 
 // Violation is one observed refutation of a property.
@@ -67,6 +69,43 @@ type Worker struct {
 	MaxViol int
 	// Replay, when >= 0, restricts the run to that single index.
 	Replay int
+
+	// per-case watchdog state (see watchdog)
+	wdMu      sync.Mutex
+	wdIndex   int
+	wdWall    time.Time
+	wdCPU     float64
+	wdRunning bool
+}
+
+// Exit codes of a worker stopped by its own per-case watchdog.
+const (
+	ExitCPUHang  = 7 // one case burned more than CPUHangLimit CPU-seconds
+	ExitWallOnly = 8 // one case exceeded the wall limit without burning CPU (loaded machine): inconclusive
+)
+
+// CPUHangLimit is the CPU-time budget of a single case (inputs are <= 64 KiB).
+const CPUHangLimit = 20.0
+
+func (w *Worker) watchdog() {
+	for {
+		time.Sleep(500 * time.Millisecond)
+		w.wdMu.Lock()
+		running, idx, wall, cpu := w.wdRunning, w.wdIndex, w.wdWall, w.wdCPU
+		w.wdMu.Unlock()
+		if !running {
+			continue
+		}
+		dcpu := CPUSeconds() - cpu
+		if dcpu > CPUHangLimit {
+			fmt.Fprintf(os.Stderr, "WATCHDOG cpu-hang batch=%d index=%d cpu_s=%.1f wall_s=%.1f\n", w.Batch, idx, dcpu, time.Since(wall).Seconds())
+			os.Exit(ExitCPUHang)
+		}
+		if time.Since(wall) > 10*time.Minute {
+			fmt.Fprintf(os.Stderr, "WATCHDOG wall-only batch=%d index=%d cpu_s=%.1f\n", w.Batch, idx, dcpu)
+			os.Exit(ExitWallOnly)
+		}
+	}
 }
 
 func Hash64(parts ...string) uint64 {
@@ -88,6 +127,7 @@ func NewWorker(prop, tier string, seed int64, batch int, curPath string) *Worker
 	w := &Worker{Prop: prop, Tier: tier, Seed: seed, Batch: batch, nt: map[uint64]struct{}{}, MaxViol: 200, Replay: -1}
 	w.Res = BatchResult{Prop: prop, Batch: batch, Counts: map[string]int{}, Inconclusive: map[string]int{}, Extra: map[string]any{}}
 	if curPath != "" {
+		go w.watchdog()
 		f, err := os.OpenFile(curPath, os.O_CREATE|os.O_RDWR|os.O_TRUNC, 0o644)
 		if err == nil {
 			w.curFile = f
@@ -131,6 +171,14 @@ func (w *Worker) RunOne(i int, fn func(c *Case)) {
 	c := &Case{Prop: w.Prop, Tier: w.Tier, Seed: w.Seed, Batch: w.Batch, Index: i, w: w}
 	c.Rng = rand.New(rand.NewSource(CaseSeed(w.Seed, w.Prop, w.Batch, i)))
 	w.noteCurrent(c, "")
+	w.wdMu.Lock()
+	w.wdIndex, w.wdWall, w.wdCPU, w.wdRunning = i, time.Now(), CPUSeconds(), true
+	w.wdMu.Unlock()
+	defer func() {
+		w.wdMu.Lock()
+		w.wdRunning = false
+		w.wdMu.Unlock()
+	}()
 	defer func() {
 		if r := recover(); r != nil {
 			stack := string(debug.Stack())
